@@ -279,7 +279,7 @@ fn collect_programs(work: &Path, tier: &str, rng: &mut Rng, kinds_seen: &mut BTr
     }
     // dependents of the core library only: the examples of the repository
     let mut ex: Vec<PathBuf> = cairo_files(Path::new("/repo/examples")).into_iter().filter(|p| p.file_stem().unwrap() != "lib").collect();
-    let n_ex = if tier == "thorough" { ex.len() } else { 8 };
+    let n_ex = if tier == "thorough" { ex.len() } else { 12 };
     for _ in 0..n_ex.min(ex.len()) {
         let i = rng.below(ex.len() as u64) as usize;
         let p = ex.swap_remove(i);
@@ -287,14 +287,14 @@ fn collect_programs(work: &Path, tier: &str, rng: &mut Rng, kinds_seen: &mut BTr
         add(name, &std::fs::read_to_string(&p).unwrap(), 1, p.to_string_lossy().to_string());
     }
     let mut bugs: Vec<PathBuf> = cairo_files(Path::new("/repo/tests/bug_samples")).into_iter().filter(|p| p.file_stem().unwrap() != "lib").collect();
-    let n_bug = if tier == "thorough" { bugs.len() } else { 10 };
+    let n_bug = if tier == "thorough" { bugs.len() } else { 24 };
     for _ in 0..n_bug.min(bugs.len()) {
         let i = rng.below(bugs.len() as u64) as usize;
         let p = bugs.swap_remove(i);
         let name = format!("bug_{}", p.file_stem().unwrap().to_string_lossy());
         add(name, &std::fs::read_to_string(&p).unwrap(), 2, p.to_string_lossy().to_string());
     }
-    let n_gen = if tier == "thorough" { 400 } else { 30 };
+    let n_gen = if tier == "thorough" { 400 } else { 60 };
     let n_gen = std::env::var("H20_GENERATED").ok().and_then(|s| s.parse().ok()).unwrap_or(n_gen);
     for i in 0..n_gen {
         let (text, kinds) = gen_program(rng, i);
